@@ -1,2 +1,99 @@
+(* C27 — Job IDs stay stable while jobs run.
+   Only theorem statements here; proofs live in Proof/Jobs.v.
+   `run s ops` is the job table after the operations `ops` (any mix of Add,
+   Add(nil), Terminate, GarbageCollect, Get, GetLatest, List, any length);
+   slot k holds job id k+1. *)
+From Coq Require Import List ZArith.
 From Murex Require Import Base.Outcome Model.Jobs Check.C27 Proof.Jobs.
-Example C27_placeholder_nonvacuous : True. Proof. exact I. Qed.
+
+(* A running job keeps its id: if process p sat at slot k after ops1 and has not
+   terminated by the end of ops1 ++ ops2, it still sits at slot k — whatever
+   other jobs started, finished or were garbage-collected in between. *)
+Theorem C27_id_stable_while_running : forall s0 ops1 ops2 k p,
+  nth_error (slots (run s0 ops1)) k = Some (Some p) ->
+  mem p (dead (run s0 (ops1 ++ ops2))) = false ->
+  nth_error (slots (run s0 (ops1 ++ ops2))) k = Some (Some p).
+Proof. exact id_stable_while_running. Qed.
+Print Assumptions C27_id_stable_while_running.
+
+(* fg/bg lookups never return a finished job, and what they return is what
+   `jobs` lists under that id; they never panic. *)
+Theorem C27_get_never_returns_finished : forall s n p,
+  get s n = Ok p -> mem p (dead s) = false /\ In (Z.to_nat n, p) (list_jobs s).
+Proof. exact get_never_returns_finished. Qed.
+Print Assumptions C27_get_never_returns_finished.
+
+Theorem C27_latest_never_returns_finished : forall s p,
+  latest s = Ok p -> mem p (dead s) = false /\ exists k, last_entry (list_jobs s) = Some (k, p).
+Proof. exact latest_never_returns_finished. Qed.
+Print Assumptions C27_latest_never_returns_finished.
+
+Theorem C27_lookups_never_panic : forall s o, snd (step s o) <> RPanic.
+Proof. exact step_never_panics. Qed.
+Print Assumptions C27_lookups_never_panic.
+
+(* `jobs` lists exactly the running jobs: (id, p) is listed iff slot id-1 holds
+   p and p has not terminated ... *)
+Theorem C27_list_is_exactly_unfinished_slots : forall s k p,
+  In (k, p) (list_jobs s) <->
+  1 <= k /\ nth_error (slots s) (k - 1) = Some (Some p) /\ mem p (dead s) = false.
+Proof. exact list_jobs_In. Qed.
+Print Assumptions C27_list_is_exactly_unfinished_slots.
+
+(* ... and, starting from the empty table, the listed processes are exactly
+   those that were added and never terminated. *)
+Theorem C27_list_is_exactly_running : forall ops p,
+  In p (map snd (list_jobs (run st0 ops))) <-> In (Add p) ops /\ ~ In (Terminate p) ops.
+Proof. exact list_is_exactly_running. Qed.
+Print Assumptions C27_list_is_exactly_running.
+
+(* An id is reused only after every job that held that id or a higher one has
+   finished: the next Add after ops0 ++ ops1 hands out id length+1; any job q
+   that ever sat at an id k'+1 >= that is dead by then. *)
+Theorem C27_id_reuse_only_after_suffix_finished : forall s0 ops0 ops1 k' q,
+  nth_error (slots (run s0 ops0)) k' = Some (Some q) ->
+  length (slots (run s0 (ops0 ++ ops1))) <= k' ->
+  mem q (dead (run s0 (ops0 ++ ops1))) = true.
+Proof. exact id_reuse_only_after_suffix_finished. Qed.
+Print Assumptions C27_id_reuse_only_after_suffix_finished.
+
+(* GarbageCollect's backwards loop (modelled literally) trims exactly the
+   trailing finished entries. *)
+Theorem C27_gc_loop_is_trim : forall d l, gc_slots d l = trim (map (gc_clear d) l).
+Proof. exact gc_slots_spec. Qed.
+Print Assumptions C27_gc_loop_is_trim.
+
+Theorem C27_gc_trims_exactly_trailing : forall d l,
+  exists cut,
+    map (gc_clear d) l = gc_slots d l ++ cut /\
+    Forall (fun x => x = None) cut /\
+    (forall k p, nth_error l k = Some (Some p) -> mem p d = false ->
+                 nth_error (gc_slots d l) k = Some (Some p)) /\
+    match rev (gc_slots d l) with None :: _ => False | _ => True end.
+Proof. exact gc_trims_exactly_trailing. Qed.
+Print Assumptions C27_gc_trims_exactly_trailing.
+
+(* Headline: for EVERY history, the model's observations satisfy the predicate
+   that the check evaluates on the implementation's observations. *)
+Theorem C27_model_meets_spec : forall ops,
+  spec_ok {| c_ops := ops; c_obs := trace st0 ops |} = true.
+Proof. exact model_meets_spec. Qed.
+Print Assumptions C27_model_meets_spec.
+
+(* Non-vacuity: a concrete history with id reuse is accepted when observed as the
+   model predicts, and spec_ok rejects (1) a renumbering GC: job 2 (process 1)
+   shown as %1 after process 0 finished; (2) Get returning a finished job. *)
+Example C27_nonvacuous :
+  let ops := [Add 0; Add 1; Terminate 0; GC; Get 2%Z] in
+  spec_ok {| c_ops := ops; c_obs := trace st0 ops |} = true /\
+  spec_ok {| c_ops := ops; c_obs :=
+     [ {| so_res := RNone; so_list := [(1,0)]; so_raw := [Some 0] |};
+       {| so_res := RNone; so_list := [(1,0);(2,1)]; so_raw := [Some 0; Some 1] |};
+       {| so_res := RNone; so_list := [(2,1)]; so_raw := [Some 0; Some 1] |};
+       {| so_res := RNone; so_list := [(1,1)]; so_raw := [Some 1] |};
+       {| so_res := RGot None; so_list := [(1,1)]; so_raw := [Some 1] |} ] |} = false /\
+  spec_ok {| c_ops := [Add 0; Terminate 0; Get 1%Z]; c_obs :=
+     [ {| so_res := RNone; so_list := [(1,0)]; so_raw := [Some 0] |};
+       {| so_res := RNone; so_list := []; so_raw := [Some 0] |};
+       {| so_res := RGot (Some 0); so_list := []; so_raw := [Some 0] |} ] |} = false.
+Proof. vm_compute. repeat split. Qed.
